@@ -3,7 +3,7 @@ PROP = dict(
     gens=[],
     lake=['IcyVerif.Props.C09'],
     ns='IcyVerif.C09',
-    theorems=['cursor_in_screen', 'cursor_in_screen_step', 'screen_not_below_buffer', 'margins_inside_screen'],
+    theorems=['cursor_in_screen_wrapped', 'cursor_in_screen', 'cursor_in_screen_step', 'screen_not_below_buffer', 'margins_inside_screen'],
     harness='c09',
     harness_timeout=1500,
     design='DESIGN.md §4 C09, §3.2 TermGeo',
@@ -19,7 +19,7 @@ PROP = dict(
     modelled='ANSI parser control flow (ESC/CSI/DCS/OSC/APS/music framing, macros), caret primitives, limit_caret_pos, '
              'Buffer::print_char, margins, tab stops, buffer height/first visible line on a terminal buffer',
     not_modelled='cell contents (row lengths, Line::get_line_length is an oracle argument), palette/fonts/hyperlinks/sixel '
-                 'queue/music list; Avatar, PCBoard, Ctrl-A, Renegade, PETSCII, ATASCII, Viewdata, Mode 7: oracle only '
+                 'queue/music list; PETSCII, ATASCII, Viewdata, Mode 7: oracle only '
                  '(exploration-supported, no theorem)',
     assumptions=['HPA/HPR executed from inside a macro replay read the same line length as the invoking character (generator '
                  'does not put them into macro bodies)',
